@@ -43,16 +43,28 @@ SHARD = 160
 SEARCH_MAX = 1000
 K_QUICK = 400
 K_THOROUGH = 800
-RULE = ("every limit N = 0..%d (quick) / 0..%d plus sampled limits up to 2000 (thorough): the full tables "
-        "(min_prime(m), is_prime(m) for every m <= N, primes()) and factorize(m) for every m <= N (m = 0 included: "
-        "both sides panic); non-trivial = N >= 4 (at least one composite cell is written)" % (K_QUICK, K_THOROUGH))
-TRUSTED = ["executor harness/crates/c13 (builds Sieve::new(N), reads the tables through the public accessors)",
+RULE = ("every limit N = 0..%d (quick) / 0..%d plus sampled limits up to 2000 (thorough), plus structured limits above that "
+        "bound (2^k-1, 2^k, 2^k+1, p^2-1, p^2, p^2+1, 2p, 2p+1, multiples of 128/256 and their neighbours; up to 1025 quick / "
+        "4096 thorough): the full tables (min_prime(m), is_prime(m) for every m <= N, primes()) and factorize(m) for every "
+        "m <= N (m = 0 included: both sides panic).  Each limit is observed four times per build profile (debug and release): "
+        "`tab`/`fact` = plain ascending reads plus in-executor cross-checks (same Sieve re-read descending/interleaved, "
+        "primes() called again, next() twice more after None, every provided Iterator method against the next() walk); "
+        "`tabr`/`factr` = the SAME observation collected by a seeded random history on one Sieve (random/repeated/descending "
+        "reads, primes() at random moments, up to three factorize iterators alive and advanced alternately, iterators dropped "
+        "half way, for/by_ref/take forms, optionally after a larger or smaller Sieve was built in the same process) and fed to "
+        "the same Coq case, so model_check/spec_check decide it; an internal disagreement is the case CIncoherent, which fails "
+        "both checks.  A zig-zag tail repeats limits in descending order inside the same executor process.  "
+        "non-trivial = N >= 4 (at least one composite cell is written)" % (K_QUICK, K_THOROUGH))
+TRUSTED = ["executor harness/crates/c13 (builds Sieve::new(N), reads the tables through the public accessors; its internal "
+           "cross-checks compare repeated reads / Iterator adaptors with the first read and print X on a difference)",
            "checks/c13.py (case generator, Coq term printer)"]
 ASSUMPTIONS = ["table entries are nat in the model: the i32/usize casts of the code are exact for limits < 2^31 "
-               "(the executor goes up to 10^7)"]
+               "(the executor goes up to 2^24 + 1)"]
 
 
 def harness_line(c):
+    if c["k"] in ("tabr", "factr"):
+        return "%s %d %d" % (c["k"], c["n"], c.get("seed", 1))
     return "%s %d" % (c["k"], c["n"])
 
 
@@ -64,9 +76,13 @@ def coq_term(c, obs, profile):
     n = c["n"]
     if obs == "P" or not obs:
         return "(CPanic %d)" % n
+    if obs[0] == "X":
+        return "(CIncoherent %d)" % n
     if obs[0] == "T":
         a, b, p = obs[1:].split("|")
         return '(CTab %d %s "%s" %s)' % (n, zl(a.split()), b.strip(), zl(p.split()))
+    if obs[0] != "F":
+        raise ValueError("observation line has not the agreed format: %r" % obs[:200])
     return "(CFact %d %s)" % (n, zl(obs[1:].split()))
 
 
@@ -77,20 +93,85 @@ def nontrivial(c, obs):
 def classify(c, obs):
     n = c["n"]
     size = "N<4" if n < 4 else ("N<100" if n < 100 else ("N<=400" if n <= 400 else "N>400"))
-    return "%s/%s%s" % (c["k"], size, "/panic" if obs == "P" else "")
+    return "%s/%s%s" % (c["k"], size, "/panic" if obs == "P" else ("/incoherent" if obs[:1] == "X" else ""))
+
+
+def is_prime_py(x):
+    if x < 2:
+        return False
+    d = 2
+    while d * d <= x:
+        if x % d == 0:
+            return False
+        d += 1
+    return True
+
+
+def next_prime(x):
+    while not is_prime_py(x):
+        x += 1
+    return x
+
+
+def shapes(ks=(), ps=(), twops=(), blocks=()):
+    """structured limits: around powers of two, around squares of primes, twice a prime, block multiples"""
+    out = []
+    for k in ks:
+        out += [2 ** k - 1, 2 ** k, 2 ** k + 1]
+    for p in ps:
+        p = next_prime(p)
+        out += [p * p - 1, p * p, p * p + 1]
+    for p in twops:
+        p = next_prime(p)
+        out += [2 * p, 2 * p + 1]
+    for b in blocks:
+        out += [b - 1, b, b + 1]
+    seen, res = set(), []
+    for n in out:
+        if n not in seen:
+            seen.add(n)
+            res.append(n)
+    return res
+
+
+# limits above the every-N bound that go through the Coq correspondence (the model runs them in a few seconds each)
+COQ_SHAPES_QUICK = shapes(ks=(10,), ps=(23,), twops=(211,), blocks=()) + [512]
+COQ_SHAPES_THOROUGH = (shapes(ks=(9, 10, 11), ps=(23, 29, 31, 37, 41, 47), twops=(401, 503, 521, 1009, 1019),
+                              blocks=(896, 1280, 1536))
+                       + [832, 1152, 1792, 2304, 2560, 4096])
+
+
+def four(rng, n, seeds=1):
+    cs = [{"k": "tab", "n": n}, {"k": "fact", "n": n}]
+    for _ in range(seeds):
+        cs.append({"k": "tabr", "n": n, "seed": rng.below(2 ** 32)})
+        cs.append({"k": "factr", "n": n, "seed": rng.below(2 ** 32)})
+    return cs
 
 
 def generate(rng, tier):
     cases = []
     K = K_QUICK if tier == "quick" else K_THOROUGH
+    # the structured limits above K first (their Coq terms are the expensive ones: they share a batch file with the
+    # cheapest small limits)
+    for n in (COQ_SHAPES_QUICK if tier == "quick" else COQ_SHAPES_THOROUGH):
+        if n > K:
+            cases += four(rng, n)
     for n in range(K + 1):
-        cases.append({"k": "tab", "n": n})
-        cases.append({"k": "fact", "n": n})
+        cases += four(rng, n, seeds=(3 if n <= 64 or tier == "thorough" else 1))
     if tier == "thorough":
         for _ in range(60):
-            n = rng.range(K + 1, 2000)
-            cases.append({"k": "tab", "n": n})
-            cases.append({"k": "fact", "n": n})
+            cases += four(rng, rng.range(K + 1, 2000))
+    # the same executor process now sees smaller limits after larger ones (identical Coq terms are proved once)
+    tail = [("tab", K), ("tab", 7), ("fact", 7), ("tabr", 7), ("tab", K - 1), ("tab", 0), ("fact", 0), ("tab", 64), ("tab", 63),
+            ("fact", K), ("fact", 30), ("factr", 30), ("tab", 128), ("fact", 127), ("tabr", 1), ("tab", 2), ("factr", 0)]
+    for n in range(K, -1, -37):
+        tail += [("tab", n), ("fact", n), ("tabr", n), ("factr", n)]
+    for k, n in tail:
+        c = {"k": k, "n": n}
+        if k in ("tabr", "factr"):
+            c["seed"] = rng.below(2 ** 32)
+        cases.append(c)
     return cases
 
 
@@ -100,25 +181,85 @@ def shrink(c):
     for w in (0, n // 2, n - 8, n - 1):
         if 0 <= w < n:
             out.append(dict(c, n=w))
+    # the plain form of a random-history case
+    if c["k"] == "tabr":
+        out.append({"k": "tab", "n": n})
+    if c["k"] == "factr":
+        out.append({"k": "fact", "n": n})
     return out
 
 
+def big_limits(tier, rng):
+    """limits of the implementation-only search: the largest first, then the others in a shuffled order, so that
+    inside the one executor process smaller limits follow larger ones and vice versa"""
+    if tier == "quick":
+        ls = shapes(ks=range(9, 19), ps=(23, 37, 101, 317), twops=(23, 37, 101, 317, 1009, 10007, 65537, 99991),
+                    blocks=(64 * 157, 128 * 79, 256 * 41, 1024 * 11, 32768 * 3, 65536 * 3))
+        ls += [200000, 199999]
+        ls += [rng.range(2001, 200000) for _ in range(40)]
+    else:
+        ls = shapes(ks=range(9, 25), ps=(23, 37, 101, 317, 1009, 3163),
+                    twops=(23, 37, 101, 317, 1009, 10007, 65537, 99991, 1000003, 4999999),
+                    blocks=(64 * 157, 128 * 79, 256 * 41, 1024 * 11, 32768 * 3, 65536 * 3, 32768 * 31, 65536 * 17,
+                            128 * 78125, 256 * 39063))
+        ls += [1000000, 999983, 10000000]
+        ls += [rng.range(2001, 200000) for _ in range(200)]
+        ls += [rng.range(200001, 5000000) for _ in range(10)]
+    ls = list(dict.fromkeys(ls))
+    top = max(ls)
+    rest = [n for n in ls if n != top]
+    rng.shuffle(rest)
+    return [top] + rest
+
+
+SWEEP = {"quick": (401, 6000), "thorough": (401, 20000)}
+
+
 def extra(ctx, known):
-    """implementation-only search at large limits against the independent sieve inside the executor"""
+    """implementation-only search at large limits against the independent sieve inside the executor: every build
+    profile, structured + random limits in ONE process per profile, and every limit of a whole interval (sweep)"""
     import subprocess, time
-    limits = [200000, 199999] if ctx.tier == "quick" else [1000000, 999983, 10000000]
-    cov, viol = {"large_limit_search": []}, []
-    binp = ctx.bins[PROFILES[0]]
-    for n in limits:
+    from _driver import Rng
+    rng = Rng(ctx.seed).fork("C13-big")
+    limits = big_limits(ctx.tier, rng)
+    lo, hi = SWEEP[ctx.tier]
+    lines = ["big %d" % n for n in limits] + ["sweep %d %d" % (lo, hi)]
+    kinds = {}
+    for c in generate(Rng(ctx.seed).fork(ID), ctx.tier):
+        kinds[c["k"]] = kinds.get(c["k"], 0) + 1
+    cov = {"generated_cases_by_executor_op_per_profile": kinds,
+           "large_limit_search": {"limits": limits, "sweep_every_limit": [lo, hi], "profiles": {}}}
+    viol = []
+    for prof in PROFILES:
+        binp = ctx.bins[prof]
         t = time.time()
-        p = subprocess.run([binp], input="big %d\n" % n, stdout=subprocess.PIPE, stderr=subprocess.PIPE, text=True, timeout=3000)
-        out = p.stdout.strip()
-        cov["large_limit_search"].append({"limit": n, "result": out, "seconds": round(time.time() - t, 2)})
-        if not out.startswith("ok"):
-            viol.append({"name": "big-%d" % n, "kind": "counterexample",
-                         "payload": {"what": "Sieve::new(%d) differs from the independent segmented sieve of the executor" % n,
-                                     "limit": n, "executor_says": out, "stderr": p.stderr[-500:],
-                                     "reproduce": "echo 'big %d' | harness/target/debug/c13" % n}})
+        try:
+            p = subprocess.run([binp], input="".join(l + "\n" for l in lines), stdout=subprocess.PIPE,
+                               stderr=subprocess.PIPE, text=True, timeout=3000)
+            outs, err, rc = p.stdout.split("\n"), p.stderr, p.returncode
+        except subprocess.TimeoutExpired as e:
+            outs, err, rc = [], "timeout: %s" % e, -1
+        if outs and outs[-1] == "":
+            outs.pop()
+        bad = [(l, o) for l, o in zip(lines, outs) if not o.startswith("ok")]
+        cells = sum(int(o.split()[2]) for o in outs if o.startswith("ok"))
+        cov["large_limit_search"]["profiles"][prof] = {
+            "lines_ok": len(outs) - len(bad), "lines": len(lines), "cells_checked": cells,
+            "seconds": round(time.time() - t, 2), "first_failure": ("%s -> %s" % bad[0]) if bad else None}
+        where = "harness/target/%s/c13" % prof
+        if bad:
+            l, o = bad[0]
+            viol.append({"name": "big-%s-%s" % (prof, l.replace(" ", "-")), "kind": "counterexample",
+                         "payload": {"what": "Sieve::new(N) (%s build) differs from the independent segmented sieve of the "
+                                             "executor, or an accessor panicked" % prof,
+                                     "query": l, "executor_says": o, "other_failing_queries": len(bad) - 1,
+                                     "stderr": err[-500:], "reproduce": "echo '%s' | %s" % (l, where)}})
+        elif rc != 0 or len(outs) != len(lines):
+            viol.append({"name": "big-%s-crash" % prof, "kind": "broken-correspondence", "nofail": True,
+                         "payload": {"what": "the executor (%s build) did not finish the large-limit search: %d answers for "
+                                             "%d queries, exit code %s" % (prof, len(outs), len(lines), rc),
+                                     "first_unanswered": lines[len(outs)] if len(outs) < len(lines) else None,
+                                     "stderr": err[-1500:], "obligation": "large-limit search"}})
     return {"coverage": cov, "violations": viol, "known": []}
 
 
@@ -136,10 +277,16 @@ MANIFEST = {
             "correspondence case, no side condition: tables / factorisation lists equal to the model's satisfy the "
             "model-independent trial-division specification, so model = implementation carries the specification to "
             "the implementation by proof). The model is tied to the code on every run: "
-            "for every limit N up to the bound the executor dumps the full tables and all factorisations and Coq proves "
-            "model = implementation and implementation |= trial-division spec.",
+            "for every limit N up to the bound (and structured limits above it: around powers of two, prime squares, "
+            "twice a prime, multiples of 128/256) the executor dumps the full tables and all factorisations, in the debug "
+            "and the release build, once by plain ascending reads and once more through seeded random histories on one "
+            "Sieve (repeated / descending / interleaved reads, several live iterators, Iterator adaptors, calls after "
+            "exhaustion, other Sieves built before), and Coq proves model = implementation and implementation |= "
+            "trial-division spec.",
     "level_note": "Trusted: Coq kernel + vm_compute; the Rust executor and the Python case printer; integers are nat "
                   "(limits < 2^31); theorems are about the model, the correspondence covers every limit up to the bound; "
-                  "the 10^6/10^7 comparison against an independent sieve is an implementation-only search.",
+                  "the comparison against an independent sieve (every limit 401..6000 quick / 401..20000 thorough, "
+                  "structured and random limits up to 2^18+1 quick / 2^24+1 thorough, both build profiles) is an "
+                  "implementation-only search.",
     "technique": "Coq proof over Gallina model + vm_compute correspondence batches against the Rust crate",
 }
